@@ -128,6 +128,8 @@ S = {
  "C19-r3-2": ("C19", "emitter", "a multi-part string only continues across a line break; needs a gap between parts that starts with a space or tab", ["C19"]),
  "C20-r3-1": ("C20", "parser", "redefinition check through the substitution helper; needs const FOO = FOO before the redefinition", ["C20"]),
  "C20-r3-2": ("C20", "parser", "break scope pushed per case body, never popped for default; needs a switch with default earlier and a stray break later", ["C20"]),
+ "C01-r4-1": ("C01", "emitter", "an if with an empty body and no elif/else emits no condition; needs an AutoVar command in such a condition (its command disappears)", ["C01", "C11"]),
+ "C01-r4-2": ("C01", "emitter", "a default that holds the body of a shared case group is never registered; needs body-less cases directly before a default with the body and a value matching nothing", ["C01", "C03"]),
  "C02-r4-1": ("C02", "emitter", "a '!' written directly before an AutoVar leaf is ignored; needs an AutoVar command in a condition with the ! prefix", ["C02", "C11"]),
  "C02-r4-2": ("C02", "emitter", "with line markers on an AutoVar leaf no longer runs its command; needs markers + path + an AutoVar leaf", ["C02", "C16", "C11"]),
  "C03-r4-1": ("C03", "emitter", "constants in a case value substituted only when the value is one token; needs a multi-token case value mentioning a constant", ["C03", "C13"]),
